@@ -3,7 +3,7 @@ from facts import AnalysisBroken
 from model import (dstr, strip, fact_holds, mentions_field, mentions_call, mentions_var,
                    mentions_enum, const_value, walk)
 from props.scan_common import check_recheck_is_full, check_refresh_validations, check_outputs_statted, check_midbuild_targets_scheduled
-from rules import (deep_resolve, absent_from, guarded, calls_to, field_writes, who_may_call, must_pass, dominated_by,
+from rules import (lastname, deep_resolve, absent_from, guarded, calls_to, field_writes, who_may_call, must_pass, dominated_by,
                    full_range, loops_over, every_iteration_passes, basename, error_discipline,
                    origins, reject_if, canon_before_intern, skip_conditions_exact, is_var,
                    is_field, is_enum)
@@ -281,9 +281,14 @@ def run(ctx):
         ctx.check('C11.W1', e.get('init') or f.name in ('Node::set_dyndep_pending', 'Node::Node'), f.name, 'pending:direct-writer', f.where(e),
                   'Node::dyndep_pending_ is written only through set_dyndep_pending (writer: %s)' % f.name)
     mp = prog.fn('ManifestParser::ParseEdge')
-    reject_if(ctx, 'C11.W1', mp, lambda a: strip(a).get('k') == 'call' and
-              basename(strip(a).get('name') or '').startswith('operator==') and var_named('dgi')(
-                  (strip(a).get('args') or [None])[0] if 'recv' not in strip(a) else strip(a)['recv']),
+    def not_among_inputs(a):
+        d = deep_resolve(mp, a)
+        sd = strip(d)
+        k = dstr(d)
+        return isinstance(sd, dict) and sd.get('k') == 'call' and basename(sd.get('name') or '').startswith('operator==') and \
+            any(x.get('k') == 'call' and lastname(x.get('name') or '').split('<')[0] == 'find' for x in walk(d)) and \
+            'Edge::dyndep_' in k and 'Edge::inputs_' in k and 'end()' in k
+    reject_if(ctx, 'C11.W1', mp, not_among_inputs,
               True, 'X9 the dyndep binding must name one of the statement\'s inputs', 'X9:dyndep-not-input')
     ctx.floor('C11.W1', 4)
 
@@ -354,7 +359,19 @@ def run(ctx):
     check_outputs_statted(ctx, 'C11.O1', prog)
     check_midbuild_targets_scheduled(ctx, 'C11.O1', prog)
     check_recheck_is_full(ctx, 'C11.O1', prog)
-    ctx.floor('C11.O1', 14)
+    # an edge that becomes wanted because of freshly loaded dyndep information is counted like any wanted edge:
+    # the flip kWantNothing -> kWantToStart in RefreshDyndepDependents is always followed by EdgeWanted (wanted_edges_
+    # is decremented for every finished edge, phony or not; an uncounted one ends the build early)
+    rdd = prog.fn('Plan::RefreshDyndepDependents')
+    flips = [e for e in rdd.stores() if mentions_enum(e.get('r'), 'Plan::kWantToStart')]
+    ctx.check('C11.O1', len(flips) >= 1, rdd.name, 'refresh:want-flip-absent', rdd.loc, 'RefreshDyndepDependents wants newly dirty dependents')
+    for e in flips:
+        r = rdd.find_path(e, lambda x: x['k'] in ('ret', 'exit') or (x['k'] == 'call' and x.get('name') == 'Plan::RefreshDyndepDependents') or
+                          (x in flips and x is not e) or (x is e),
+                          is_blocker=lambda x: x['k'] == 'call' and x.get('name') == 'Plan::EdgeWanted')
+        ctx.check('C11.O1', r is None, rdd.name, 'refresh:wanted-edge-not-counted', rdd.where(e),
+                  'every edge flipped to kWantToStart is passed to EdgeWanted', witness=None if r is None else {'blocks': r[0]})
+    ctx.floor('C11.O1', 16)
 
     # ---- CN ---------------------------------------------------------------------------------------------
     R('C11.CN', 'CN', 'every path parsed from a dyndep file is canonicalised before it becomes a node identity')
